@@ -199,8 +199,8 @@ struct Frame<NT_, T_, std::integer_sequence<int, N...>, std::integer_sequence<in
         using rules_t = std::tuple<typename RuleOf<(int)RI>::type...>;
         using parser_t = ctpg::parser<NTm, terms_t, nterms_t, rules_t, lexer_usage_t, ctpg::default_limits>;
         static parser_t* make() {
-            static const char* names[] = {"N0", "N1", "N2", "N3", "N4", "N5"};
-            static const char* tnames[] = {"a", "b", "c", "d", "e", "f"};
+            static const char* names[] = {"N0", "N1", "N2", "N3", "N4", "N5", "N6", "N7", "N8", "N9"};
+            static const char* tnames[] = {"a", "b", "c", "d", "e", "f", "g", "h", "i", "j", "k", "l", "m", "n"};
             auto mkterm = [](auto idx) { constexpr int K = decltype(idx)::value; if constexpr (Custom) return term_t<K>(tnames[K], TermF<K>{}); else return term_t<K>(ctpg::char_term(char(97 + K)), TermF<K>{}); };
             terms_t ts{mkterm(std::integral_constant<int, (int)TI>{})...};
             nterms_t ns{NTm(names[NI])...};
